@@ -920,7 +920,22 @@ Fixpoint pv_eqb (a b : pv) {struct a} : bool :=
             | (n, x) :: r, (n', y) :: s => (n =? n') && pv_eqb x y && go r s
             | _, _ => false
             end) vals vals'
-  | VSchema i, VSchema i' | VBatch i, VBatch i' => i =? i'
+  | VIpcRow ok vals, VIpcRow ok' vals' =>
+      Bool.eqb ok ok'
+      && (fix go (l l' : list (N * pv)) : bool :=
+            match l, l' with
+            | [], [] => true
+            | (n, x) :: r, (n', y) :: s => (n =? n') && pv_eqb x y && go r s
+            | _, _ => false
+            end) vals vals'
+  | VRow vals, VRow vals' =>
+      (fix go (l l' : list (N * pv)) : bool :=
+         match l, l' with
+         | [], [] => true
+         | (n, x) :: r, (n', y) :: s => (n =? n') && pv_eqb x y && go r s
+         | _, _ => false
+         end) vals vals'
+  | VSchema i, VSchema i' | VBatch i, VBatch i' | VIpcSchema i, VIpcSchema i' | VIpcBatch i, VIpcBatch i' => i =? i'
   | _, _ => false
   end.
 
@@ -930,7 +945,9 @@ Definition err_code (e : err) : N :=
   end.
 
 (* outcome as the harness reports it: (0, value) or (error code, None) *)
-Definition out_eqb (a b : N * pv) : bool := (fst a =? fst b) && pv_eqb (snd a) (snd b).
+(* 100 on the harness side = "some error" (an HTTP server wraps the exception, its class is not observable) *)
+Definition out_eqb (a b : N * pv) : bool :=
+  if fst b =? 100 then negb (fst a =? 0) else (fst a =? fst b) && pv_eqb (snd a) (snd b).
 Definition outcome (r : res pv) : N * pv := match r with Ok x => (0, x) | Err e => (err_code e, VNone) end.
 
 Definition run_case (cf : cfg) (i : cenv * ty * pv) : N * pv :=
